@@ -17,6 +17,72 @@ from .C17 import clone_def
 from .C02 import same_type
 
 
+def child_node_total(repo: Repo, rep):
+    rep.rule(
+        "R-CHILD-NODE",
+        "a sub-snapshot `snapshot({..})[key]` gets the source node of its value whenever the structure allows it: in DictValue.__getitem__ the "
+        "assignment of `<node>.values[<position>]` depends only on the structural guards (the node is a dict display, the key is in the old value, no "
+        "`**` entry, as many keys as nodes, the node exists) - it is not placed inside a `try` and is not conditional on anything else (how the key is "
+        "written, whether it can be literal_eval'ed).  Without its node the changes of the sub-snapshot are dropped by apply_all: `fix` reports success and "
+        "the source keeps the old value",
+    )
+    c = None
+    for k in repo.all_classes():
+        if k.name == "DictValue" and k.module.rel == "_snapshot/dict_value.py":
+            c = k
+    f = c.methods.get("__getitem__") if c is not None else None
+    if f is None:
+        rep.undecided("R-CHILD-NODE", "DictValue.__getitem__ not found")
+        return
+    cfg = cfg_of(f)
+    picks = [n for n in cfg.stmts(ast.Assign) if isinstance(n.ast.value, ast.Subscript) and isinstance(n.ast.value.value, ast.Attribute) and n.ast.value.value.attr == "values" and "node" in norm(n.ast.value.value.value)]
+    rep.floor("R-CHILD-NODE", "child-node selections in DictValue.__getitem__", len(picks), 1)
+
+    def structural(e) -> bool:
+        t = norm(e)
+        if isinstance(e, ast.Call) and norm(e.func) == "isinstance" and "ast." in t:
+            return True
+        if isinstance(e, ast.Compare) and len(e.ops) == 1:
+            if isinstance(e.ops[0], (ast.In, ast.NotIn)) and ("old_value" in norm(e.comparators[0]) or "_new_value" in norm(e.comparators[0])):
+                return True
+            if isinstance(e.ops[0], (ast.Is, ast.IsNot)) and ("undefined" in t or "None" in t):
+                return True
+            if isinstance(e.ops[0], (ast.Eq, ast.NotEq)) and "len(" in t:
+                return True
+        if isinstance(e, ast.Call) and norm(e.func) in ("any", "all") and "is None" in t.replace("is not None", "is None"):
+            return True
+        return False
+
+    _structural_plain = structural
+
+    def structural(e) -> bool:  # noqa: F811 - the plain test plus predicate helpers
+        if _structural_plain(e):
+            return True
+        # the guards moved into a predicate of the class / module (`self._keys_match_nodes(old_value)`): it looks at nothing but lengths,
+        # None-ness and node kinds - no try, no call that evaluates or renders anything
+        if isinstance(e, ast.Call):
+            g = None
+            if isinstance(e.func, ast.Attribute) and isinstance(e.func.value, ast.Name) and f.params and e.func.value.id == f.params[0]:
+                g = repo.lookup_method(c, e.func.attr)
+            elif isinstance(e.func, ast.Name):
+                g = f.module.funcs.get(e.func.id)
+            if g is not None and not any(isinstance(x, ast.Try) for x in body_nodes(g.node)):
+                calls = [norm(x.func).split(".")[-1] for x in body_nodes(g.node) if isinstance(x, ast.Call)]
+                if all(nm in ("len", "any", "all", "isinstance", "list", "keys", "index", "zip") for nm in calls):
+                    return True
+        return False
+
+    for n in picks:
+        in_try = [a for a in ancestors(n.ast) if isinstance(a, ast.Try)]
+        other = [cn for cn, lab in dominating_edges(cfg, n) if cn.kind == "cond" and not structural(cn.ast)]
+        if in_try:
+            rep.violation("R-CHILD-NODE", f, n.ast, f"`{short(n.ast, 50)}` stands inside a `try` statement: whether the sub-snapshot gets its source node depends on whether something else raised (e.g. literal_eval of a key written as a name) - without the node its fix is silently not applied", construct="child-node-in-try")
+        elif other:
+            rep.violation("R-CHILD-NODE", f, n.ast, f"`{short(n.ast, 50)}` is conditional on `{short(other[0].ast, 50)}`, which is no structural property of the dict display: for the entries that fail it the sub-snapshot has no source node and its fix is silently not applied", construct="child-node-conditional")
+        else:
+            rep.ok("R-CHILD-NODE", f, n.ast, "the value node is chosen under structural guards only")
+
+
 def check(repo: Repo, rep, tier):
     rep.not_decided = "that the values after a run are the documented function of the whole history of comparisons; tightness of trimmed values"
     flag_label(repo, rep)
@@ -59,6 +125,7 @@ def check(repo: Repo, rep, tier):
     from .C18 import ctx_restore
 
     ctx_restore(repo, rep)
+    child_node_total(repo, rep)
 
 
 def role(e: ast.AST) -> str:
